@@ -569,11 +569,11 @@ func checkInside(c insideCase) ev.Outcome {
 func init() {
 	ev.Define("threshold", ev.Options{
 		Rule:  "index as find_closest (≤150 edges), closest or furthest, 2..8 calls each on a fresh query: Distance (MaxError 0 or >0), IsDistanceLess/IsDistanceGreater and the two conservative forms with thresholds from the r-th true distance ±1 ulp, absolute values, 0, 4; targets point/edge/cell and (1/8) a second index. Oracle: the scan (any entry passing the threshold / best entry); the conservative forms against the scan with the threshold moved by the documented UpdateMinDistance error (formula re-stated) and against their one-sided meaning. Non-trivial = optimized branch ran on an index with >=3 top-level cells.",
-		Quick: 16000, Thorough: 450000}, drawOps(false), checkOps)
+		Quick: 16000, Thorough: 250000}, drawOps(false), checkOps)
 	ev.Define("query_reuse", ev.Options{
 		Rule:  "ONE query object with fixed options receives 2..8 calls (FindEdges, Distance, IsDistanceLess/Greater, conservative forms; varying targets incl. a second index): every FindEdges must equal the scan under the configured options and every other call its own oracle, whatever came before. A FindEdges failure that a fresh query does not show is classed as history dependence. Non-trivial = the optimized branch ran.",
-		Quick: 12000, Thorough: 350000}, drawOps(true), checkOps)
+		Quick: 12000, Thorough: 200000}, drawOps(true), checkOps)
 	ev.Define("interior_zero", ev.Options{
 		Rule:  "a star polygon of one of the four two-dimensional shape types is added to a drawn index; the target (point, edge, cell) lies in the disc about its centre of half the high-precision distance centre–boundary (antipodal image for furthest): constructed truth. Distance with interiors (explicit and default options) must be exactly 0 (π), FindEdges must report the interior entry, the threshold forms must hold, and without interiors Distance must equal the scan. Discarded = the drawn cell/edge does not fit in the disc. Non-trivial = the search without interiors ran the optimized branch.",
-		Quick: 12000, Thorough: 350000}, genInside, checkInside)
+		Quick: 12000, Thorough: 200000}, genInside, checkInside)
 }
